@@ -52,7 +52,8 @@ where
         let inner = AtomicRefMut::map(value.borrow_mut(), Box::as_mut);
 
         FetchMut {
-            inner,
+            inner: Some(inner),
+            direct: None,
             phantom: PhantomData,
         }
     }
